@@ -543,9 +543,12 @@ func wireFormatProblems(a *model.Claims, enc []byte) []string {
 }
 
 func runC10(c *mon.Ctx) {
-	c.Rule("valid claims-sets of both profiles (all optional subsets, hash sizes, 1-4 components with optional text incl. non-ASCII/control characters, P1 flag or list, P1 with/without explicit profile), built directly, through setters, or obtained by decoding conformant wire tokens (incl. permuted key order and unknown extra keys); for wire tokens that are NOT conformant but that the validating decoder accepts all the same (C04's business), whatever ValidateAndEncodeClaimsToCBOR then emits must itself be conformant wire for the independent reader; also sets with 22..26 and 254..257 (thorough: 65535..65537) components (array-header boundaries); every returned encoding is kept and re-checked after six further encodes; the bytes of ValidateAndEncodeClaimsToCBOR are parsed by the independent reader and compared, as an order-insensitive map, with the expected wire of the abstract set: one definite map, no trailing bytes, no duplicate / foreign / missing keys, no null, right type and exact value, single nonce as bare bstr, never list+flag, component keys within {1,2,4,5,6}. distinct_nontrivial = distinct (profile, route, optional-subset, nonce size, component count) signatures")
+	c.Rule("valid claims-sets of both profiles (all optional subsets, hash sizes, 1-4 components with optional text incl. non-ASCII/control characters, P1 flag or list, P1 with/without explicit profile), built directly, through setters (components through the component's own setters), or obtained by decoding conformant wire tokens (incl. permuted key order and unknown extra keys); for wire tokens that are NOT conformant but that the validating decoder accepts all the same (C04's business), whatever ValidateAndEncodeClaimsToCBOR then emits must itself be conformant wire for the independent reader; also sets with 22..26 and 254..257 (thorough: 65535..65537) components (array-header boundaries); every returned encoding is kept and re-checked after six further encodes; the bytes of ValidateAndEncodeClaimsToCBOR are parsed by the independent reader and compared, as an order-insensitive map, with the expected wire of the abstract set: one definite map, no trailing bytes, no duplicate / foreign / missing keys, no null, right type and exact value, single nonce as bare bstr, never list+flag, component keys within {1,2,4,5,6}. distinct_nontrivial = distinct (profile, route, optional-subset, nonce size, component count) signatures")
 	g := model.NewGen(c.Seed*1201 + int64(c.Shard))
 	held10 := &returnedBytes{prop: "C10"}
+	// registered extensions with unusual struct layouts: what they emit must hold
+	// the base profile's claims (checked through the decode + observation there)
+	layoutExtRoundTrips(c, g, "C10", "cbor", c.N(300, 10000))
 	// component lists at the CBOR array-header boundaries
 	counts := []int{22, 23, 24, 25, 26, 254, 255, 256, 257}
 	if !c.Quick() {
